@@ -72,7 +72,10 @@ def action():
         st.tuples(st.just("cpu_affinity"), st.sampled_from([[3], [4], [3, 4], [4, 3], [0], [2], [0, 2], [7]])),
         st.tuples(st.just("rlimit"), st.sampled_from(RLIMITS),
                   st.sampled_from([(0, 0), (1, 1), (0, 1), (1, 2), (1024, 4096), (5, INF),
-                                   (INF, INF), (10, 10), "cur", (1,), (1, 2, 3), (), [7, 8]])),
+                                   (INF, INF), (10, 10), "cur", (1,), (1, 2, 3), (), [7, 8],
+                                   # the largest finite values (distinct from RLIM_INFINITY)
+                                   (1024, 2**63 - 1), (2**63 - 1, 2**63 - 1), (2**63 - 2, 2**63 - 1),
+                                   (0, 2**63 - 2)])),
     )
 
 
@@ -232,7 +235,8 @@ def _run_live(case, state):
                                  "RLIMIT_RTTIME", "RLIMIT_RSS") and isinstance(lim, (tuple, list)) \
                             and len(lim) == 2 and tuple(lim) != (INF, INF):
                         # small values of these would kill the sacrificial child
-                        lim = (2**40 + lim[0], INF if lim[1] == INF else 2**41 + lim[1])
+                        lim = (lim[0] if lim[0] >= 2**40 else 2**40 + lim[0],
+                               lim[1] if (lim[1] == INF or lim[1] >= 2**41) else 2**41 + lim[1])
                     if lim == "cur":
                         lim = before["rl"][op[1]]
                     got = p.rlimit(res)
